@@ -42,6 +42,14 @@ def gen_case(rng, nmax=40, estimators=ESTIMATORS, binnings=BINNINGS, allow_spars
     coords = gen_coords(rng, n, dim=dim, kind=kind)
     vkind = str(rng.choice(['field', 'int', 'noise']))
     values = gen_values(rng, coords, vkind)
+    # observations may come in any numeric dtype (8-bit image data, integer counts)
+    dtype = str(rng.choice(['float64'] * 5 + ['uint8', 'int64', 'float32']))
+    if dtype == 'uint8':
+        values = np.clip(np.round((values - values.min()) * 8), 0, 255)
+    elif dtype == 'int64':
+        values = np.round(values * 4)
+    elif dtype == 'float32':
+        values = values.astype('float32').astype(float)
     metric = str(rng.choice(metrics, p=None))
     want_sparse = allow_sparse and rng.random() < 0.3
     if want_sparse and 'euclidean' in metrics:
@@ -107,7 +115,7 @@ def gen_case(rng, nmax=40, estimators=ESTIMATORS, binnings=BINNINGS, allow_spars
         kw['maxlag'] = None
         form = 'custom'
     case = dict(coords=coords.tolist(), values=values.tolist(), kw=kw, storage=storage, dim=dim,
-                kind=kind, maxlag_form=form)
+                kind=kind, maxlag_form=form, dtype=dtype)
     return case
 
 
@@ -116,7 +124,7 @@ def build(case, **extra):
     coords = np.array(case['coords'], dtype=float)
     if case.get('dim', coords.ndim) == 1 and coords.ndim == 2 and coords.shape[1] == 1:
         coords = coords[:, 0]
-    values = np.array(case['values'], dtype=float)
+    values = np.array(case['values'], dtype=float).astype(case.get('dtype', 'float64'))
     kw = dict(case['kw'])
     kw.update(extra)
     kw.setdefault('fit_method', None)
